@@ -183,7 +183,12 @@ impl Launcher {
                     None => format!("inject={call}:signal=SIGKILL:when={when}"),
                     Some(e) => format!("inject={call}:error={e}:when={when}"),
                 };
-                c.arg("--seccomp-bpf").arg("-f").arg("-qq").arg("-o").arg(&strace_out).arg("-e").arg(format!("trace={call}")).arg("-e").arg(inject).arg(self.bin_dir.join("simnode"));
+                // the seccomp filter makes tracing three times cheaper, but with it strace does not
+                // deliver injected signals (measured: the kill never fires), so only errnos use it
+                if errno.is_some() {
+                    c.arg("--seccomp-bpf");
+                }
+                c.arg("-f").arg("-qq").arg("-o").arg(&strace_out).arg("-e").arg(format!("trace={call}")).arg("-e").arg(inject).arg(self.bin_dir.join("simnode"));
                 c
             }
         };
@@ -217,7 +222,12 @@ impl Launcher {
             // a child that died before writing its first event was hit during program start-up
             let injected = text.contains("(INJECTED)") || text.contains("+++ killed by SIGKILL +++") || (!text.is_empty() && events.is_empty());
             if injected {
-                let kind = if errno.is_some() { "sys-error" } else { "sys-kill" };
+                // an interrupted call (EINTR) is not an error: a start that met one is judged like any other
+                let kind = match errno.as_deref() {
+                    Some("EINTR") => "sys-eintr",
+                    Some(_) => "sys-error",
+                    None => "sys-kill",
+                };
                 events.push(Event::FaultFired { kind: kind.into(), point: format!("{call}{}", errno.as_ref().map(|e| format!(":{e}")).unwrap_or_default()), k: *when });
             }
         }
